@@ -280,6 +280,48 @@ func factsBlock() {
 		[]string{firstIfCond(lm, "IsObjNotFoundErr"), firstIfCond(lm, "m.Version")})
 	emitList("deletionFilterTolerated", "pkg/block/fetcher.go IgnoreDeletionMarkFilter.Filter: marker read errors that are not failures",
 		allIfConds(body(fn(ff, "IgnoreDeletionMarkFilter", "Filter")), "errors.Cause(err) =="))
+	// ---- C32 (histories): IgnoreDeletionMarkFilter.Filter rebuilds its map from the bucket on every call
+	idf := fn(ff, "IgnoreDeletionMarkFilter", "Filter")
+	var upd []string
+	guards := []string{"unknown"}
+	if idf != nil && idf.Body != nil {
+		// statements between the last f.mtx.Lock() and f.mtx.Unlock() of the function body
+		in := false
+		for _, st := range idf.Body.List {
+			t := text(st)
+			if t == "f.mtx.Lock()" {
+				in, upd = true, nil
+				continue
+			}
+			if t == "f.mtx.Unlock()" {
+				in = false
+				continue
+			}
+			if in {
+				upd = append(upd, t)
+			}
+		}
+		// if-conditions that enclose the ReadMarker call (its own `if err := …ReadMarker…; err != nil` excluded)
+		var stack []ast.Node
+		ast.Inspect(idf.Body, func(n ast.Node) bool {
+			if n == nil {
+				stack = stack[:len(stack)-1]
+				return true
+			}
+			if c, ok := n.(*ast.CallExpr); ok && strings.HasSuffix(callName(c), "ReadMarker") {
+				guards = []string{}
+				for _, a := range stack {
+					if is, ok := a.(*ast.IfStmt); ok && (is.Init == nil || !strings.Contains(text(is.Init), "ReadMarker")) {
+						guards = append(guards, text(is.Cond))
+					}
+				}
+			}
+			stack = append(stack, n)
+			return true
+		})
+	}
+	emitList("deletionFilterMapUpdate", "pkg/block/fetcher.go IgnoreDeletionMarkFilter.Filter: how the filter's map is updated after the marks were read", upd)
+	emitList("deletionFilterReadGuards", "pkg/block/fetcher.go IgnoreDeletionMarkFilter.Filter: if-conditions under which deletion-mark.json is read (none = every block, every sync)", guards)
 	cpf := parse("pkg/compact/compact.go")
 	emitList("noCompactFilterTolerated", "pkg/compact/compact.go GatherNoCompactionMarkFilter.Filter: marker read errors that are not failures",
 		allIfConds(body(fn(cpf, "GatherNoCompactionMarkFilter", "Filter")), "errors.Cause(err) =="))
